@@ -67,3 +67,51 @@ flat_mat!(CMat4 cols Vec4 4; x y z w);
 
 /// read a value at offset `*k`, advancing it
 pub fn take<T, V: Flat<T>>(a: &[T], k: &mut usize) -> V { let v = V::rd(&a[*k..*k + V::N]); *k += V::N; v }
+
+// ---- geometry ----
+use vek::geom::repr_c::{Aabr, Aabb, Rect, Rect3, Disk, Sphere, LineSegment2, LineSegment3, Ray};
+impl<T: Clone> Flat<T> for Aabr<T> {
+    const N: usize = 4;
+    fn rd(a: &[T]) -> Self { Aabr { min: Flat::rd(&a[0..2]), max: Flat::rd(&a[2..4]) } }
+    fn wr(&self, out: &mut Vec<T>) { self.min.wr(out); self.max.wr(out); }
+}
+impl<T: Clone> Flat<T> for Aabb<T> {
+    const N: usize = 6;
+    fn rd(a: &[T]) -> Self { Aabb { min: Flat::rd(&a[0..3]), max: Flat::rd(&a[3..6]) } }
+    fn wr(&self, out: &mut Vec<T>) { self.min.wr(out); self.max.wr(out); }
+}
+impl<T: Clone> Flat<T> for Rect<T, T> {
+    const N: usize = 4;
+    fn rd(a: &[T]) -> Self { Rect { x: a[0].clone(), y: a[1].clone(), w: a[2].clone(), h: a[3].clone() } }
+    fn wr(&self, out: &mut Vec<T>) { out.push(self.x.clone()); out.push(self.y.clone()); out.push(self.w.clone()); out.push(self.h.clone()); }
+}
+impl<T: Clone> Flat<T> for Rect3<T, T> {
+    const N: usize = 6;
+    fn rd(a: &[T]) -> Self { Rect3 { x: a[0].clone(), y: a[1].clone(), z: a[2].clone(), w: a[3].clone(), h: a[4].clone(), d: a[5].clone() } }
+    fn wr(&self, out: &mut Vec<T>) { for v in [&self.x, &self.y, &self.z, &self.w, &self.h, &self.d] { out.push(v.clone()); } }
+}
+impl<T: Clone> Flat<T> for Disk<T, T> {
+    const N: usize = 3;
+    fn rd(a: &[T]) -> Self { Disk { center: Flat::rd(&a[0..2]), radius: a[2].clone() } }
+    fn wr(&self, out: &mut Vec<T>) { self.center.wr(out); out.push(self.radius.clone()); }
+}
+impl<T: Clone> Flat<T> for Sphere<T, T> {
+    const N: usize = 4;
+    fn rd(a: &[T]) -> Self { Sphere { center: Flat::rd(&a[0..3]), radius: a[3].clone() } }
+    fn wr(&self, out: &mut Vec<T>) { self.center.wr(out); out.push(self.radius.clone()); }
+}
+impl<T: Clone> Flat<T> for LineSegment2<T> {
+    const N: usize = 4;
+    fn rd(a: &[T]) -> Self { LineSegment2 { start: Flat::rd(&a[0..2]), end: Flat::rd(&a[2..4]) } }
+    fn wr(&self, out: &mut Vec<T>) { self.start.wr(out); self.end.wr(out); }
+}
+impl<T: Clone> Flat<T> for LineSegment3<T> {
+    const N: usize = 6;
+    fn rd(a: &[T]) -> Self { LineSegment3 { start: Flat::rd(&a[0..3]), end: Flat::rd(&a[3..6]) } }
+    fn wr(&self, out: &mut Vec<T>) { self.start.wr(out); self.end.wr(out); }
+}
+impl<T: Clone> Flat<T> for Ray<T> {
+    const N: usize = 6;
+    fn rd(a: &[T]) -> Self { Ray { origin: Flat::rd(&a[0..3]), direction: Flat::rd(&a[3..6]) } }
+    fn wr(&self, out: &mut Vec<T>) { self.origin.wr(out); self.direction.wr(out); }
+}
